@@ -81,7 +81,7 @@ def run(rep):
              ('sqlparse.filters.tokens.TruncateStringFilter.process', None),
              ('sqlparse.filters.others.StripWhitespaceFilter.process', 'body'),
              ('sqlparse.sql.TokenList.get_parent_name', None), ('sqlparse.utils.remove_quotes', None),
-             ('sqlparse.utils.remove_quotes', 'None')] + tc.NAV_FUNCS + \
+             ('sqlparse.utils.remove_quotes', 'None')] + tc.NAV_FUNCS + tc.OFFSET_FUNCS + \
             [(tc.GT, 'new group'), (tc.GT, 'extend flag')] + tc.MATCHER_FUNCS + tc.PASS_FUNCS + tc.JOINER_FUNCS
     return generic.run_generic(
         rep, funcs, structural=[replay_options, validation_dominates, rec],
